@@ -58,7 +58,8 @@ def chkOf (L : Layout) (j : Nat) : Chunk :=
 
 /-- the record index the slow path of `Seek` settles on. -/
 def pickRi (L : Layout) (s : RState) (pos : Int) : Nat :=
-  if ¬ ((getRecords L.recs s.ri).1.raw ≤ pos ∧ pos ≤ (getRecords L.recs s.ri).2.raw)
+  if ¬ ((getRecords L.recs s.ri).1.raw ≤ pos ∧
+      (pos < (getRecords L.recs s.ri).2.raw ∨ pos = (getRecords L.recs s.ri).1.raw))
   then search L.recs pos else s.ri
 
 /-- the state the slow path of `Seek` produces for index `ri`. -/
@@ -183,9 +184,11 @@ theorem pickRi_ok (wf : WellFormed L plain) (s : RState) (hri : s.ri ≤ L.recs.
         exact Int.le_of_lt (searchSpec_upper L.recs wf.sorted pos h)
       · right; exact h
   · rename_i h
-    have h : (getRecords L.recs s.ri).1.raw ≤ pos ∧ pos ≤ (getRecords L.recs s.ri).2.raw := by
-      simpa using h
-    exact ⟨hri, h.1, Or.inl h.2⟩
+    have h : (getRecords L.recs s.ri).1.raw ≤ pos ∧
+        (pos < (getRecords L.recs s.ri).2.raw ∨ pos = (getRecords L.recs s.ri).1.raw) :=
+      Decidable.not_not.1 h
+    have hb := seg_bounds wf s.ri hri
+    exact ⟨hri, h.1, Or.inl (by omega)⟩
 
 theorem inv_seekTo (wf : WellFormed L plain) (s : RState) (inv : Inv L s) (pos : Int)
     (hpos : 0 ≤ pos) :
